@@ -382,6 +382,8 @@ type smHub struct {
 	plan   []entranceResp                        // responses for the next entrances
 	extra  int                                   // entrances without a planned response
 	acts   chan tmeil.StateMachineRoundAction
+	// action channels of earlier entrances that may still hold an undrained action
+	oldActs []chan tmeil.StateMachineRoundAction
 	hc     chan<- struct{}
 	finReq *tmdriver.FinalizeBlockRequest
 	// label of the block finalized at each height (the previous-commit proof of later views is for it)
@@ -566,6 +568,9 @@ func (r *smRig) start() {
 				r.srvBusy.Add(1)
 				r.rec.add(M{"t": "entrance", "h": re.H, "r": re.R})
 				r.hub.mu.Lock()
+				if r.hub.acts != nil {
+					r.hub.oldActs = append(r.hub.oldActs, r.hub.acts)
+				}
 				r.hub.acts = re.Actions
 				r.hub.hc = re.HeightCommitted
 				var resp *entranceResp
@@ -1088,10 +1093,36 @@ func (rn *smRunner) run(b smBehaviour) {
 		// drain the actions channel: what the state machine released to the mirror
 		hub.mu.Lock()
 		acts := hub.acts
+		oldActs := hub.oldActs
+		hub.oldActs = nil
 		hub.mu.Unlock()
+		// an action sent for a round that was left within the same step sits in that entrance's channel
+		pending := make(chan tmeil.StateMachineRoundAction, 16)
+		for _, oc := range oldActs {
+			for more := true; more; {
+				select {
+				case a := <-oc:
+					pending <- a
+				default:
+					more = false
+				}
+			}
+		}
 		for acts != nil {
+			var a tmeil.StateMachineRoundAction
 			select {
-			case a := <-acts:
+			case a = <-pending:
+			default:
+				select {
+				case a = <-acts:
+				default:
+					acts = nil
+				}
+			}
+			if acts == nil {
+				break
+			}
+			{
 				m := M{"t": "action"}
 				switch {
 				case len(a.PH.Header.Hash) > 0:
@@ -1110,10 +1141,7 @@ func (rn *smRunner) run(b smBehaviour) {
 						fmt.Sprintf("a %s for %v/%v was released to the mirror without a matching action store record", m["kind"], m["h"], m["r"]))
 				}
 				outs = append(outs, m)
-				continue
-			default:
 			}
-			break
 		}
 
 		// ---- predicates on the real outputs
